@@ -242,7 +242,24 @@ def check_invariants(ctx, R="C13.invariants"):
         i = blk.index(st)
         if i + 1 < len(blk) and "checkInvariants" in unparse(blk[i + 1]):
             good = True
-    if good:
+    # ... with the same first argument as the compiled code passes after every other action: the compiler hands its `self`
+    # (the agent) to runTryInterrupt as the second argument and to checkInvariants as the first one
+    rtp = [a.arg for a in rt.args.args]
+    inv_calls = [c for c in ast.walk(rt) if isinstance(c, ast.Call) and isinstance(c.func, ast.Attribute) and c.func.attr == "checkInvariants"]
+    if good and len(rtp) >= 2:
+        wrong = [c for c in inv_calls if not (c.args and isinstance(c.args[0], ast.Name) and c.args[0].id == rtp[1])]
+        if wrong:
+            good = None
+            ctx.finding(
+                R,
+                wrong[0],
+                "runTryInterrupt invariants agent",
+                f"runTryInterrupt re-checks the invariants with `{unparse(wrong[0].args[0]) if wrong[0].args else ''}` in place of its agent parameter `{rtp[1]}`: an invariant that mentions `self` "
+                f"fails with AttributeError (or is checked against the wrong object) as soon as the behaviour takes a step inside a try-interrupt statement",
+            )
+    if good is None:
+        pass
+    elif good:
         ctx.ok(R, rt, "runTryInterrupt re-checks the behaviour's invariants after every yield")
     else:
         ctx.finding(R, rt, "runTryInterrupt invariants", "runTryInterrupt no longer calls behavior.checkInvariants right after its yield")
@@ -266,6 +283,54 @@ def check_invariants(ctx, R="C13.invariants"):
         ctx.ok(R, dsm.functions["DynamicScenario._start"], "scenarios check their preconditions in _prepare, or in _start when they had to be delayed")
     else:
         ctx.finding(R, dsm.functions["DynamicScenario._start"], "scenario guards", f"DynamicScenario checks preconditions only in {calls}")
+    # the decision to delay is taken once, when the scenario is prepared; _start runs once per simulation of the same (reused)
+    # scenario object, so (1) _prepare either checks or records the delay, on every path; (2) _start checks whenever the delay
+    # was recorded; (3) nothing that runs per simulation changes the recorded decision
+    prep, start = dsm.functions.get("DynamicScenario._prepare"), dsm.functions.get("DynamicScenario._start")
+    if prep is not None and start is not None and {"DynamicScenario._prepare", "DynamicScenario._start"} <= set(calls):
+        flags = {
+            unparse(t)
+            for n in walk_local(prep)
+            if isinstance(n, ast.Assign) and isinstance(n.value, ast.Constant) and n.value.value is True
+            for t in n.targets
+            if isinstance(t, ast.Attribute) and unparse(t.value) == "self" and any(unparse(x) == unparse(t) for x in ast.walk(start))
+        }
+        chk_start = [c for c in walk_local(start) if isinstance(c, ast.Call) and unparse(c.func) == "self._checkAllPreconditions"]
+        flag = next((f for f in sorted(flags) if any(lib.holds(lib.guard_tests(c, start), f) for c in chk_start)), None)
+        if flag is None:
+            raise AnalysisError("shape not recognised: the delayed-precondition flag of DynamicScenario._prepare / _start")
+        dparam = [a.arg for a in prep.args.args + prep.args.kwonlyargs if "delay" in a.arg.lower()]
+        sets = [n for n in walk_local(prep) if isinstance(n, ast.Assign) and any(unparse(t) == flag for t in n.targets)]
+        chk_prep = [c for c in walk_local(prep) if isinstance(c, ast.Call) and unparse(c.func) == "self._checkAllPreconditions"]
+        ok1 = bool(dparam) and all(lib.holds(lib.guard_tests(n, prep), dparam[0]) for n in sets) and all(lib.holds(lib.guard_tests(c, prep), f"not {dparam[0]}") for c in chk_prep)
+        if ok1:
+            ctx.ok(R, prep, f"_prepare checks the preconditions at once unless `{dparam[0]}`, in which case it records `{flag}`")
+        else:
+            ctx.finding(R, prep, "scenario guards: delay decision", f"DynamicScenario._prepare no longer either checks the preconditions or records `{flag}` depending on its delay argument")
+        conds_ok = all([unparse(t) for t, p_ in lib.flatten_conditions(lib.guard_tests(c, start)) if p_] == [flag] and not [1 for t, p_ in lib.flatten_conditions(lib.guard_tests(c, start)) if not p_] for c in chk_start)
+        if conds_ok:
+            ctx.ok(R, start, f"_start checks the delayed preconditions whenever `{flag}` is set")
+        else:
+            ctx.finding(R, start, "scenario guards: delayed check", f"DynamicScenario._start checks the delayed preconditions only under further conditions than `{flag}`")
+        per_run = []
+        for q, fn_ in dsm.functions.items():
+            if q in ("DynamicScenario._prepare", "DynamicScenario.__init__") or not q.startswith("DynamicScenario."):
+                continue
+            for n in walk_local(fn_):
+                tg = n.targets if isinstance(n, ast.Assign) else [n.target] if isinstance(n, (ast.AugAssign, ast.AnnAssign)) else []
+                if any(unparse(t) == flag for t in tg):
+                    per_run.append((q, n))
+        if per_run:
+            q, n = per_run[0]
+            ctx.finding(
+                R,
+                n,
+                f"scenario guards: {q} assigns {flag}",
+                f"{q} assigns `{flag}` (`{norm_text(n, 60)}`): the flag records a decision taken once in _prepare, but the top-level scenario object is started again for every simulation, "
+                f"so from the second simulation on its preconditions are no longer checked",
+            )
+        else:
+            ctx.ok(R, start, f"`{flag}` is assigned only when the scenario is created / prepared")
     mg = model.func(CO, "ScenicToPythonTransformer.makeGuardCheckers")
     t = unparse(mg)
     if t.count("ast.ExceptHandler(type=ast.Name('RejectionException', loadCtx)") >= 2 and "PreconditionViolation" in t and "InvariantViolation" in t:
@@ -381,6 +446,7 @@ def check_flags(ctx, R="C13.flags"):
     model = ctx.model
     ci = model.cls(CO, "ScenicToPythonTransformer")
     n_saved = 0
+    restores_of = {}  # method -> {attr: the statement that assigns the saved value back}
     for mname, fn in ci.methods.items():
         # statements of the method itself, in order (nested helper functions excluded)
         stmts = [s_ for s_ in walk_local(fn) if isinstance(s_, ast.stmt)]
@@ -425,6 +491,7 @@ def check_flags(ctx, R="C13.flags"):
             n_saved += 1
             restored = [w for w, val in writes.get(a_, []) if isinstance(val, ast.Name) and val.id == loc and w.lineno > over[0].lineno]
             if restored:
+                restores_of.setdefault(mname, {})[a_] = restored[0]
                 ctx.ok(R, sst, f"{mname}: self.{a_} is saved in `{loc}` and restored")
             else:
                 ctx.finding(R, sst, f"{mname}: self.{a_} saved but not restored", f"ScenicToPythonTransformer.{mname} saves self.{a_} in `{loc}` and overwrites it, but never assigns `{loc}` back: after a nested statement the enclosing statement is compiled with the nested one's value of {a_}")
@@ -458,6 +525,7 @@ def check_flags(ctx, R="C13.flags"):
         n_cf += 1
         # is it (through copy_location / a local) the argument of self.visit?
         cur, wrapped = c, False
+        uses = []
         seen_names = set()
         for _ in range(6):
             par = parents.get(id(cur))
@@ -474,6 +542,24 @@ def check_flags(ctx, R="C13.flags"):
                 break
             break
         if wrapped:
+            # (d) ... and by then every attribute the visitor had overwritten holds the enclosing context's value again: the
+            # visit must see the enclosing flags, and what it records there (usedBreak / usedContinue of the enclosing
+            # statement) must not be overwritten by a later restore
+            vcall = par if isinstance(par, ast.Call) and dotted(par.func) == "self.visit" else None
+            if vcall is None:
+                vcalls = [parents[id(u)] for u in uses if isinstance(parents.get(id(u)), ast.Call) and dotted(parents[id(u)].func) == "self.visit"]
+                vcall = vcalls[0] if vcalls else None
+            late = sorted(a_ for a_, rst in restores_of.get("visit_TryInterrupt", {}).items() if vcall is not None and rst.lineno > vcall.lineno)
+            if late:
+                ctx.finding(
+                    R,
+                    vcall,
+                    f"visit_TryInterrupt visits emitted {dotted(c.func)} before restoring {late}",
+                    f"visit_TryInterrupt passes the emitted `{unparse(c)[:40]}` through self.visit before self.{', self.'.join(late)} hold the enclosing statement's values again: "
+                    f"the mark that visit leaves for the enclosing try-interrupt is overwritten by the later restore (or the visit runs under the inner flags), so a break / continue in a nested "
+                    f"statement is lost",
+                )
+                continue
             ctx.ok(R, c, f"visit_TryInterrupt: the emitted `{unparse(c)[:40]}` is visited in the enclosing context")
         else:
             ctx.finding(R, c, f"visit_TryInterrupt emits raw {dotted(c.func)}", f"visit_TryInterrupt emits `{norm_text(c, 60)}` into the enclosing context without self.visit: when the statement is nested in a block of another try-interrupt, the `{dotted(c.func).split('.')[-1].lower()}` is executed inside that block's function ('break outside loop' / a return that only leaves the block)")
